@@ -128,6 +128,9 @@ type revealFn struct {
 	name   string
 	column bool
 	f      func(e *envrig.Env, id, y []byte) ([]byte, error)
+	// mask is the masking pattern of a masked column: when such a column cannot be decrypted Acra replaces the value
+	// by the bare pattern (documented masking behaviour, nothing of the value is shown) instead of handing it back.
+	mask []byte
 }
 
 func splitHash(m []byte) (hash, data []byte) {
@@ -140,46 +143,53 @@ func splitHash(m []byte) (hash, data []byte) {
 
 func reveals() []revealFn {
 	col := func(column string, masking bool) revealFn {
-		return revealFn{"column:" + column, true, func(e *envrig.Env, id, y []byte) ([]byte, error) {
+		rv := revealFn{name: "column:" + column, column: true, f: func(e *envrig.Env, id, y []byte) ([]byte, error) {
 			out, _, err := e.NewReadPipeline(masking).OnColumn(id, e.Setting(column), y)
 			return out, err
 		}}
+		switch column {
+		case "mask_as_l":
+			rv.mask = []byte("xxxx")
+		case "mask_ab_r":
+			rv.mask = []byte("**")
+		}
+		return rv
 	}
 	return []revealFn{
-		{"translator.Decrypt", false, func(e *envrig.Env, id, y []byte) ([]byte, error) { return e.Translator.Decrypt(bg, y, id, nil) }},
-		{"translator.DecryptSym", false, func(e *envrig.Env, id, y []byte) ([]byte, error) { return e.Translator.DecryptSym(bg, y, id, nil) }},
-		{"translator.DecryptSearchable(hash‖data)", false, func(e *envrig.Env, id, y []byte) ([]byte, error) {
+		{name: "translator.Decrypt", f: func(e *envrig.Env, id, y []byte) ([]byte, error) { return e.Translator.Decrypt(bg, y, id, nil) }},
+		{name: "translator.DecryptSym", f: func(e *envrig.Env, id, y []byte) ([]byte, error) { return e.Translator.DecryptSym(bg, y, id, nil) }},
+		{name: "translator.DecryptSearchable(hash‖data)", f: func(e *envrig.Env, id, y []byte) ([]byte, error) {
 			return e.Translator.DecryptSearchable(bg, y, nil, id, nil)
 		}},
-		{"translator.DecryptSearchable(data,hash)", false, func(e *envrig.Env, id, y []byte) ([]byte, error) {
+		{name: "translator.DecryptSearchable(data,hash)", f: func(e *envrig.Env, id, y []byte) ([]byte, error) {
 			h, d := splitHash(y)
 			return e.Translator.DecryptSearchable(bg, d, h, id, nil)
 		}},
-		{"translator.DecryptSymSearchable(hash‖data)", false, func(e *envrig.Env, id, y []byte) ([]byte, error) {
+		{name: "translator.DecryptSymSearchable(hash‖data)", f: func(e *envrig.Env, id, y []byte) ([]byte, error) {
 			return e.Translator.DecryptSymSearchable(bg, y, nil, id, nil)
 		}},
-		{"translator.DecryptSymSearchable(data,hash)", false, func(e *envrig.Env, id, y []byte) ([]byte, error) {
+		{name: "translator.DecryptSymSearchable(data,hash)", f: func(e *envrig.Env, id, y []byte) ([]byte, error) {
 			h, d := splitHash(y)
 			return e.Translator.DecryptSymSearchable(bg, d, h, id, nil)
 		}},
-		{"registry.Process", false, func(e *envrig.Env, id, y []byte) ([]byte, error) { return e.Registry.Process(y, e.ProcCtx(id)) }},
-		{"registry.DecryptWithHandler(as)", false, func(e *envrig.Env, id, y []byte) ([]byte, error) {
+		{name: "registry.Process", f: func(e *envrig.Env, id, y []byte) ([]byte, error) { return e.Registry.Process(y, e.ProcCtx(id)) }},
+		{name: "registry.DecryptWithHandler(as)", f: func(e *envrig.Env, id, y []byte) ([]byte, error) {
 			return e.Registry.DecryptWithHandler(handlerOf("acrastruct"), y, e.ProcCtx(id))
 		}},
-		{"registry.DecryptWithHandler(ab)", false, func(e *envrig.Env, id, y []byte) ([]byte, error) {
+		{name: "registry.DecryptWithHandler(ab)", f: func(e *envrig.Env, id, y []byte) ([]byte, error) {
 			return e.Registry.DecryptWithHandler(handlerOf("acrablock"), y, e.ProcCtx(id))
 		}},
-		{"hmac.NewHashProcessor(registry)", false, func(e *envrig.Env, id, y []byte) ([]byte, error) {
+		{name: "hmac.NewHashProcessor(registry)", f: func(e *envrig.Env, id, y []byte) ([]byte, error) {
 			return hmac.NewHashProcessor(e.Registry, e.KS).Process(y, e.ProcCtx(id))
 		}},
-		{"acrastruct.DecryptRotatedAcrastruct(keys of requester)", false, func(e *envrig.Env, id, y []byte) ([]byte, error) {
+		{name: "acrastruct.DecryptRotatedAcrastruct(keys of requester)", f: func(e *envrig.Env, id, y []byte) ([]byte, error) {
 			privs, err := e.KS.GetServerDecryptionPrivateKeys(id)
 			if err != nil {
 				return nil, err
 			}
 			return acrastruct.DecryptRotatedAcrastruct(y, privs, nil)
 		}},
-		{"acrablock.Decrypt(keys of requester)", false, func(e *envrig.Env, id, y []byte) ([]byte, error) {
+		{name: "acrablock.Decrypt(keys of requester)", f: func(e *envrig.Env, id, y []byte) ([]byte, error) {
 			ks, err := e.KS.GetClientIDSymmetricKeys(id)
 			if err != nil {
 				return nil, err
@@ -190,7 +200,7 @@ func reveals() []revealFn {
 			}
 			return blk.Decrypt(ks, nil)
 		}},
-		{"hmac.DecryptRotatedSearchableAcraStruct(keys of requester)", false, func(e *envrig.Env, id, y []byte) ([]byte, error) {
+		{name: "hmac.DecryptRotatedSearchableAcraStruct(keys of requester)", f: func(e *envrig.Env, id, y []byte) ([]byte, error) {
 			privs, err := e.KS.GetServerDecryptionPrivateKeys(id)
 			if err != nil {
 				return nil, err
@@ -201,7 +211,7 @@ func reveals() []revealFn {
 			}
 			return hmac.DecryptRotatedSearchableAcraStruct(y, hk, privs, nil)
 		}},
-		{"hmac.DecryptRotatedSearchableAcraBlock(keys of requester)", false, func(e *envrig.Env, id, y []byte) ([]byte, error) {
+		{name: "hmac.DecryptRotatedSearchableAcraBlock(keys of requester)", f: func(e *envrig.Env, id, y []byte) ([]byte, error) {
 			ks, err := e.KS.GetClientIDSymmetricKeys(id)
 			if err != nil {
 				return nil, err
@@ -267,6 +277,25 @@ func leaks(a *artefact, pre, suf, out []byte) bool {
 	return (len(pre) > 0 || len(suf) > 0) && bytes.Equal(out, gen.Cat(pre, a.x, suf))
 }
 
+// maskOnly reports whether out is `in` with one region replaced by the bare masking pattern (all other bytes intact).
+func maskOnly(out, in, mask []byte) bool {
+	lcp := 0
+	for lcp < len(out) && lcp < len(in) && out[lcp] == in[lcp] {
+		lcp++
+	}
+	lcs := 0
+	for lcs < len(out) && lcs < len(in) && out[len(out)-1-lcs] == in[len(in)-1-lcs] {
+		lcs++
+	}
+	for i := 0; i <= lcp && i+len(mask) <= len(out); i++ {
+		t := len(out) - i - len(mask)
+		if t <= lcs && len(in)-t >= i+18 && bytes.Equal(out[i:i+len(mask)], mask) {
+			return true
+		}
+	}
+	return false
+}
+
 type crossJob struct {
 	a     *artefact
 	other client
@@ -306,6 +335,10 @@ func crossReveal(r *ev.Run, j crossJob, rvs []revealFn) {
 		case bytes.Equal(out, in):
 			r.Count("cross_reveal_returned_stored_form_unchanged", 1)
 			r.Distinct(fmt.Sprintf("%s|%s|%s|own%d|req%d|unchanged", a.env.Name, a.ep.name, rv.name, a.owner.rotations, j.other.rotations))
+		case rv.mask != nil && maskOnly(out, in, rv.mask):
+			// masked column that cannot be decrypted: the bare masking pattern, no byte of the value (C11 judges the window)
+			r.Count("cross_reveal_masked_column_returned_bare_pattern", 1)
+			r.Distinct(fmt.Sprintf("%s|%s|%s|own%d|req%d|mask-only", a.env.Name, a.ep.name, rv.name, a.owner.rotations, j.other.rotations))
 		default:
 			// neither an error nor the stored form: the statement allows only those two
 			r.Violation("reveal under another client identity returned an altered value (neither failure nor the stored form): "+sig, detail())
@@ -575,12 +608,12 @@ func Run(r *ev.Run) {
 	}
 
 	// --- other parts ---------------------------------------------------------------------------
-	searchHashUnderOther(r, envs, rng)
-	relocationV1(r, rng)
-	relocationV2(r, rng)
-	tokenStores(r, envs, rng)
-	identityOverrideGRPC(r, envs[0], rng)
-	identityOverrideHTTP(r, envs[0], rng)
+	part(r, "search-hash", func() { searchHashUnderOther(r, envs, rng) })
+	part(r, "relocation-v1", func() { relocationV1(r, rng) })
+	part(r, "relocation-v2", func() { relocationV2(r, rng) })
+	part(r, "token-stores", func() { tokenStores(r, envs, rng) })
+	part(r, "identity-override-grpc", func() { identityOverrideGRPC(r, envs[0], rng) })
+	part(r, "identity-override-http", func() { identityOverrideHTTP(r, envs[0], rng) })
 
 	// --- non-vacuity ----------------------------------------------------------------------------
 	r.RequireAtLeast("owner_control_revealed", 500)
@@ -591,6 +624,17 @@ func Run(r *ev.Run) {
 	r.RequireAtLeast("owner_reads_pre_rotation_value", 50)
 	r.RequireAtLeast("key_values_compared", 60)
 	r.RequireSetAtLeast("key_kinds_compared", 4)
+}
+
+// part runs one part of the monitor; a part that cannot set up its rig (panic) fails the run as such, without
+// losing what the other parts observed.
+func part(r *ev.Run, name string, f func()) {
+	defer func() {
+		if p := recover(); p != nil {
+			r.Violation("monitor part could not run: "+name, map[string]interface{}{"panic": fmt.Sprint(p), "stack": string(debug.Stack())})
+		}
+	}()
+	f()
 }
 
 // searchHashUnderOther isolates the blind-index check: a value B CAN decrypt but whose search hash was made with A's
